@@ -38,10 +38,17 @@ package c18
 
 import (
 	"bytes"
+	"context"
+	"errors"
 	"fmt"
+	"os"
+	"os/exec"
+	"path/filepath"
 	"strconv"
 	"strings"
+	"syscall"
 	"testing"
+	"time"
 
 	"pgregory.net/rapid"
 
@@ -52,10 +59,10 @@ import (
 func init() {
 	evid.Tests(
 		evid.Spec{Name: "TestEnumTransient", Kind: "plain", QuickShards: 16, ThoroughShards: 16, TimeoutS: 3000},
-		evid.Spec{Name: "TestPropTransientFaults", Kind: "rapid", Quick: 480, Thorough: 16000, QuickShards: 8, ThoroughShards: 16, TimeoutS: 3000},
-		evid.Spec{Name: "TestPropCommandsNonblock", Kind: "rapid", Quick: 48, Thorough: 640, QuickShards: 8, ThoroughShards: 16, TimeoutS: 3000},
+		evid.Spec{Name: "TestPropTransientFaults", Kind: "rapid", Quick: 1600, Thorough: 16000, QuickShards: 8, ThoroughShards: 16, TimeoutS: 3000},
+		evid.Spec{Name: "TestPropCommandsNonblock", Kind: "rapid", Quick: 96, Thorough: 640, QuickShards: 8, ThoroughShards: 16, TimeoutS: 3000},
 	)
-	evid.Note("rule_transient", "TRANSIENT FAULTS. faultcmd kinds tshort / terronly: the Write call of the stream that would store byte k returns (bytes below k | 0, err), the next Repeat-1 calls return (Step < len(p), err), later calls succeed; err = EAGAIN or EINTR as *fs.PathError, as bare syscall.Errno, or a private value; shortnil (uncompressed only): one call returns (1 <= n < len(p), nil). Oracle: exit != 0 => a message on stderr; exit 0 => the stream received exactly the fault-free output T (no hole, no duplicate); fault never met => exit 0 and T. Configurations: those of the random fault cases plus MANY SMALL CHUNKS (8-60 batches of 0-4 records, every chunk well below the 4 KiB buffer, 5-40 KiB in all, so that the fault strikes the flush of a buffer that holds the tail of earlier chunks and the head of the current one), arrival in order / reversed / neighbours swapped / any permutation, plain and gzip, CloseFile on/off, 1 (mostly) to 4 workers; offsets from the boundaries of the fault-free run +-1 or uniform. TestEnumTransient: 30 chunks of 350-560 bytes (10-17 KiB, 2-4 buffer flushes before the final one) and the 5.7-6 KiB outputs, 4 writers: every chunk boundary, every stream Write boundary, start and end +-1 and a stride (quick: |T|/48; thorough: every offset for fasta and json, every third for fastq and csv), kind x errno form x arrival x CloseFile x Repeat/Step rotated with the offset; gzip: every boundary. Non-trivial = one formatting worker and the failing Write call is issued before Wfile.Close runs (output follows the fault: resuming after it must neither drop nor repeat bytes). TestPropCommandsNonblock: obiconvert (fasta, fastq, json; --batch-size 3..default; --max-cpu) and obicsv with stdout on a pipe of 4-64 KiB made non-blocking behind the command's back after its first bytes, reader pausing 0-3 ms per 4 KiB; 57-400 KB of output; oracle as above against the healthy run; non-trivial = the command observably met the fault (non-zero exit or output different from the healthy one).")
+	evid.Note("rule_transient", "TRANSIENT FAULTS. faultcmd kinds tshort / terronly: the Write call of the stream that would store byte k returns (bytes below k | 0, err), the next Repeat-1 calls return (Step < len(p), err), later calls succeed; err = EAGAIN or EINTR as *fs.PathError, as bare syscall.Errno, or a private value; shortnil (uncompressed only): one call returns (1 <= n < len(p), nil). Oracle: exit != 0 => a message on stderr; exit 0 => the stream received exactly the fault-free output T (no hole, no duplicate); fault never met => exit 0 and T. Configurations: those of the random fault cases plus MANY SMALL CHUNKS (8-60 batches of 0-4 records, every chunk well below the 4 KiB buffer, 5-40 KiB in all, so that the fault strikes the flush of a buffer that holds the tail of earlier chunks and the head of the current one), arrival in order / reversed / neighbours swapped / any permutation, plain and gzip, CloseFile on/off, 1 (mostly) to 4 workers; offsets from the boundaries of the fault-free run +-1 or uniform. TestEnumTransient: 30 chunks of 350-560 bytes (10-17 KiB, 2-4 buffer flushes before the final one) and the 5.7-6 KiB outputs, 4 writers: every chunk boundary, every stream Write boundary, start and end +-1 and a stride (quick: |T|/48; thorough: every offset for fasta and json, every third for fastq and csv), kind x errno form x arrival x CloseFile x Repeat/Step rotated with the offset; gzip: every boundary. Non-trivial = one formatting worker and the failing Write call is issued before Wfile.Close runs (output follows the fault: resuming after it must neither drop nor repeat bytes). TestPropCommandsNonblock: obiconvert (fasta, fastq, json; --batch-size 3..default; --max-cpu; one input file or, 2 cases in 3, the records spread over 80-800 input files of 1-10 records, so that the writer receives many blocks far below 4 KiB) and obicsv with stdout on a pipe of 4-64 KiB made non-blocking behind the command's back after its first bytes, reader pausing 0-3 ms per 4 KiB; 57-400 KB of output; oracle as above against the healthy run; non-trivial = the command observably met the fault (non-zero exit or output different from the healthy one).")
 	for _, w := range writers {
 		for _, z := range []string{"plain", "gz"} {
 			evid.Reg("transient_"+w+"_"+z, checkFault)
@@ -85,6 +92,76 @@ func (c fcase) validateTransient() error {
 		return fmt.Errorf("raw needs an errno")
 	}
 	return nil
+}
+
+// ------------------------------------------------------------------ running
+
+// what a Go program that could not get a thread or memory prints; the text of
+// EAGAIN itself ("resource temporarily unavailable"), which run.Cmd also takes for
+// such a death, is here the very error the program under test has to report
+var exhaustionMarksNoEagain = []string{
+	"failed to create new OS thread",
+	"runtime: out of memory",
+	"cannot allocate memory",
+	"pthread_create failed",
+	"fork/exec",
+}
+
+func exhausted(r run.Result) bool {
+	if r.Exit == 0 {
+		return false
+	}
+	for _, m := range exhaustionMarksNoEagain {
+		if bytes.Contains(r.Stderr, []byte(m)) {
+			return true
+		}
+	}
+	return r.Err != nil && r.Exit == -1 && !r.TimedOut
+}
+
+// runTransient runs a helper as run.Cmd does (clean environment, private working
+// directory, own process group, 60 s kill timer, a death by resource exhaustion is
+// retried), except that EAGAIN reported on stderr is not a reason to run it again.
+func runTransient(env []string, name string, args ...string) run.Result {
+	var r run.Result
+	for attempt := 0; attempt < 4; attempt++ {
+		r = runOnce(env, name, args...)
+		if !exhausted(r) {
+			return r
+		}
+		time.Sleep(time.Duration(attempt+1) * 500 * time.Millisecond)
+	}
+	return r
+}
+
+func runOnce(env []string, name string, args ...string) run.Result {
+	ctx, cancel := context.WithTimeout(context.Background(), 60*time.Second)
+	defer cancel()
+	c := exec.CommandContext(ctx, run.Bin(name), args...)
+	c.Env = append([]string{"PATH=/usr/bin:/bin", "HOME=" + run.WorkDir(), "TMPDIR=" + run.WorkDir()}, env...)
+	c.Dir = run.WorkDir()
+	var so, se bytes.Buffer
+	c.Stdout, c.Stderr = &so, &se
+	c.SysProcAttr = &syscall.SysProcAttr{Setpgid: true}
+	c.Cancel = func() error { return syscall.Kill(-c.Process.Pid, syscall.SIGKILL) }
+	t0 := time.Now()
+	err := c.Run()
+	r := run.Result{Stdout: so.Bytes(), Stderr: se.Bytes(), Wall: time.Since(t0), Err: err}
+	if ctx.Err() != nil {
+		r.TimedOut = true
+		r.Exit = -1
+		return r
+	}
+	var ee *exec.ExitError
+	switch {
+	case err == nil:
+		r.Exit = 0
+	case errors.As(err, &ee):
+		r.Exit = ee.ExitCode()
+	default:
+		r.Exit = -1
+	}
+	return r
 }
 
 // ------------------------------------------------------------------ oracle
@@ -384,9 +461,36 @@ type nbcase struct {
 	C       ccase `json:"c"` // Mode = nonblock_stdout; PipeCap = requested capacity
 	DelayMs int   `json:"delay_ms"`
 	PauseMs int   `json:"pause_ms"`
+	// Files > 1: the records are spread over that many input files given in order
+	// on the command line (many small inputs = many small blocks at the writer)
+	Files int `json:"files,omitempty"`
 }
 
-func (c nbcase) key() string { return fmt.Sprint(c.C.key(), c.DelayMs, c.PauseMs) }
+func (c nbcase) key() string { return fmt.Sprint(c.C.key(), c.DelayMs, c.PauseMs, c.Files) }
+
+// splitInput writes the records of the case into c.Files files next to input and
+// returns their paths in order.
+func (c nbcase) splitInput(input string) ([]string, error) {
+	per := 2
+	if c.C.Format == "fastq" {
+		per = 4
+	}
+	lines := bytes.SplitAfter(c.C.input(), []byte("\n"))
+	nrec := len(lines) / per
+	var out []string
+	for f := 0; f < c.Files; f++ {
+		lo, hi := nrec*f/c.Files, nrec*(f+1)/c.Files
+		if lo == hi {
+			continue
+		}
+		p := fmt.Sprintf("%s.part%04d%s", strings.TrimSuffix(input, filepath.Ext(input)), f, filepath.Ext(input))
+		if err := os.WriteFile(p, bytes.Join(lines[lo*per:hi*per], nil), 0o644); err != nil {
+			return nil, err
+		}
+		out = append(out, p)
+	}
+	return out, nil
+}
 
 func checkNonblock(c nbcase) error {
 	_, err := judgeNonblock(c, false)
@@ -398,7 +502,7 @@ func judgeNonblock(c nbcase, count bool) (string, error) {
 	if err := c.C.validate(); err != nil {
 		return name, fmt.Errorf("invalid case: %v", err)
 	}
-	if c.C.Mode != "nonblock_stdout" || c.DelayMs < 0 || c.PauseMs < 0 || c.DelayMs > 2000 || c.PauseMs > 100 || c.C.PipeCap < 0 {
+	if c.C.Mode != "nonblock_stdout" || c.Files < 0 || c.Files > 5000 || c.DelayMs < 0 || c.PauseMs < 0 || c.DelayMs > 2000 || c.PauseMs > 100 || c.C.PipeCap < 0 {
 		return name, fmt.Errorf("invalid case: mode %q delay %d pause %d", c.C.Mode, c.DelayMs, c.PauseMs)
 	}
 	input, cleanup, err := writeInput(c.C)
@@ -407,7 +511,41 @@ func judgeNonblock(c nbcase, count bool) (string, error) {
 		return name, nil
 	}
 	defer cleanup()
-	r := getCmdRef(c.C, input)
+	args := c.C.args(input)
+	var r *cmdRef
+	nparts := 0
+	if c.Files > 1 {
+		parts, err := c.splitInput(input)
+		if err != nil || len(parts) == 0 {
+			evid.Class("infrastructure_skipped", 1)
+			return name, nil
+		}
+		nparts = len(parts)
+		args = append(args[:len(args)-1], parts...)
+		// the healthy run of this very command line (run again when it dies, as getCmdRef does)
+		r = &cmdRef{}
+		var o cmdOutcome
+		for attempt := 0; attempt < 3; attempt++ {
+			o = execTo(c.C.Cmd, args, c.C.env(), "capture", 0, 0)
+			if o.TimedOut || o.Err != nil || o.Exit == 0 {
+				break
+			}
+			evid.Class("healthy_run_failed_and_retried", 1)
+		}
+		switch {
+		case o.TimedOut:
+			r.Timeout = true
+		case o.Err != nil:
+			evid.Class("infrastructure_skipped", 1)
+			return name, nil
+		case o.Exit != 0:
+			r.Err = fmt.Errorf("%s %v (healthy output) exited with status %d three times in a row: %s", c.C.Cmd, args, o.Exit, tail(messagesBytes(o.Stderr), 1500))
+		default:
+			r.T = o.Stdout
+		}
+	} else {
+		r = getCmdRef(c.C, input)
+	}
 	if r.Timeout {
 		evid.Class("timeout_inconclusive", 1)
 		return name, nil
@@ -415,11 +553,15 @@ func judgeNonblock(c nbcase, count bool) (string, error) {
 	if r.Err != nil {
 		return name, r.Err
 	}
-	args := c.C.args(input)
 	full := append([]string{"-nbexec", strconv.Itoa(c.C.PipeCap), strconv.Itoa(c.DelayMs), strconv.Itoa(c.PauseMs), run.Bin(c.C.Cmd)}, args...)
-	res := run.Cmd(run.Opt{Env: c.C.env()}, "faultcmd", full...)
+	res := runTransient(c.C.env(), "faultcmd", full...)
+	inconclusive := res.TimedOut || exhausted(res)
+	shown := args
+	if nparts > 1 {
+		shown = append(append([]string{}, args[:len(args)-nparts+1]...), fmt.Sprintf("… (%d input files)", nparts))
+	}
 	what := fmt.Sprintf("%s %s | (pipe of %d bytes made non-blocking after the first bytes; reader waits %d ms, then pauses %d ms per 4 KiB)",
-		c.C.Cmd, strings.Join(args, " "), c.C.PipeCap, c.DelayMs, c.PauseMs)
+		c.C.Cmd, strings.Join(shown, " "), c.C.PipeCap, c.DelayMs, c.PauseMs)
 
 	status, sig, ok := -1, 0, false
 	for _, l := range strings.Split(string(res.Stderr), "\n") {
@@ -430,7 +572,10 @@ func judgeNonblock(c nbcase, count bool) (string, error) {
 		}
 	}
 	labels := []string{"cmd:" + c.C.Cmd, "format:" + c.C.Format, "mode:" + c.C.Mode, fmt.Sprintf("gzip:%v", c.C.Gzip)}
-	conclusive := !res.Inconclusive() && ok
+	if c.Files > 1 {
+		labels = append(labels, "nonblock:many_small_input_files")
+	}
+	conclusive := !inconclusive && ok
 	met := conclusive && (status != 0 || !bytes.Equal(res.Stdout, r.T))
 	if count {
 		if met {
@@ -440,7 +585,7 @@ func judgeNonblock(c nbcase, count bool) (string, error) {
 		}
 		evid.Eval(name, evid.Hash(c.key()), met, c, labels...)
 	}
-	if res.Inconclusive() {
+	if inconclusive {
 		evid.Class("timeout_inconclusive", 1)
 		return name, nil
 	}
@@ -488,6 +633,13 @@ func TestPropCommandsNonblock(t *testing.T) {
 		c.C.SeqLen = rapid.SampledFrom([]int{60, 150}).Draw(rt, "seqlen")
 		c.C.Gzip = rapid.IntRange(0, 7).Draw(rt, "gzip") == 0
 		c.C.PipeCap = rapid.SampledFrom([]int{4096, 4096, 16384, 65536}).Draw(rt, "pipecap")
+		if rapid.IntRange(0, 2).Draw(rt, "many_files") > 0 {
+			// many small inputs: every block handed to the output wrapper is far smaller
+			// than its buffer
+			per := rapid.SampledFrom([]int{1, 2, 5, 10}).Draw(rt, "records_per_file")
+			c.C.NRec = min(c.C.NRec, 800)
+			c.Files = max(2, c.C.NRec/per)
+		}
 		c.DelayMs = rapid.SampledFrom([]int{20, 40}).Draw(rt, "delay")
 		c.PauseMs = rapid.SampledFrom([]int{0, 1, 3}).Draw(rt, "pause")
 		name, err := judgeNonblock(c, true)
